@@ -287,9 +287,11 @@ Exec(m, p, s) ==
     [] s.k = "wend" -> [m EXCEPT !.pc = Mate(IF p.ln = Direct THEN m.dpairs ELSE m.pairs, p)]
     [] s.k = "end" ->
          \* continuable, unless nothing follows (a finished program cannot be continued)
+         \* (an END inside a THEN / ELSE part with nothing executable after it: whether the
+         \* program counts as finished is not fixed by the manual)
          IF InProgram(p)
          THEN GoReady([m EXCEPT !.cont = IF NothingLeft(m, Adv(p)) THEN NoCont ELSE Adv(p),
-                                !.contx = FALSE])
+                                !.contx = (NothingLeft(m, Adv(p)) /\ Len(p.path) > 1)])
          ELSE GoReady(m)
     [] s.k = "stop" ->
          LET m1 == Item(FreshLine(m), [k |-> "err", errs |-> {[code |-> EBreak, ln |-> IF InProgram(p) THEN p.ln ELSE -1]}]) IN
@@ -397,8 +399,11 @@ Exec(m, p, s) ==
          IF InProgram(p) THEN Fail(m, p, Err(EIllegalDirect))
          \* a program with compile-time errors is not renumbered: they are reported instead
          ELSE IF m.perr # {} THEN GoReady(Item(FreshLine(m), [k |-> "err", errs |-> m.perr]))
+         \* RENUM either fails and changes nothing, or renumbers.  It must fail when the
+         \* numbering is inadmissible; when a recorded trace says it failed (obsfail) that is
+         \* accepted too -- the manual does not enumerate the reasons -- and nothing may change.
          ELSE LET r == RenumMap(DOMAIN m.src, s.new, s.old, s.step) IN
-              IF ~r.ok THEN Fail(m, p, Err(AnyErr))
+              IF ~r.ok \/ ("obsfail" \in DOMAIN s /\ s.obsfail) THEN Fail(m, p, Err(AnyErr))
               ELSE LET src2 == RenumSrc(m.src, r.f) IN
                    GoReady(Edited(m, [n \in DOMAIN src2 |-> Norm(src2[n])], src2))
     [] s.k = "cls" -> [Item(m, [k |-> "cls"]) EXCEPT !.pc = Adv(p)]
